@@ -10,6 +10,7 @@ import Proofs.Lemmas.BeaconBlockP0
 import Proofs.Lemmas.BeaconBlockP0Att
 import Proofs.Lemmas.BeaconBlockP0All
 import Proofs.Lemmas.BeaconBlockP0Dep
+import Proofs.Lemmas.BeaconBlockAltair
 import Proofs.Properties.C02
 /-!
 # C01 — block state transition equals the consensus spec for every valid block
@@ -73,7 +74,7 @@ namespace Zrnt.Proofs.C01
 open Zrnt Zrnt.Beacon Zrnt.Beacon.Spec Zrnt.Beacon.BlockImpl Zrnt.Proofs.BeaconBlock
 open Zrnt.Beacon.BlockM (Ctx processHeader processRandaoReveal processEth1Vote processBLSToExecutionChange processExecutionPayload processVoluntaryExit processDeposit
   processAttestationPhase0 processAttestationAltair slashValidator processProposerSlashing processAttesterSlashing processBlock postSlotTransition)
-open Zrnt.Proofs.BlockM (RegU64 ExitSmall PubkeyOK SameDuties SlashSmall SlashInv OpSteps Sim Refines Safe NoOps SameCommittees OnlyExits ExitInv P0Inv P0Const SlashExitBlock AttInv OnlyAttestations P0AInv P0AConst Phase0NoDeposits P0DInv P0DConst Phase0Block)
+open Zrnt.Proofs.BlockM (RegU64 ExitSmall PubkeyOK SameDuties SlashSmall SlashInv OpSteps Sim Refines Safe NoOps SameCommittees OnlyExits ExitInv P0Inv P0Const SlashExitBlock AttInv OnlyAttestations P0AInv P0AConst Phase0NoDeposits P0DInv P0DConst Phase0Block AltInv AltConst AltExtra AltairBlock)
 
 /-- (a) `common.ValidatorSet.ZigZagJoin`, called on two strictly increasing index lists (what
 `ValidateIndexedAttestation` has established), calls `onIn` with exactly the spec's
@@ -613,12 +614,12 @@ block's pre-state, the context's proposer / active count = the specification's, 
 needs `blockNeed block k` units — one per operation of the block plus six — and the state after an accepted block
 satisfies the invariant again with `k` units (so blocks chain). `P0Const`: the configuration facts (non-zero quotients,
 `uint64` room for the epochs, `(MIN_SEED_LOOKAHEAD + 1) mod EPOCHS_PER_HISTORICAL_VECTOR ≠ 0`). -/
-theorem processBlock_slashExit_eq (cfg : Config) (S0 : State) (p Bm C k : Nat) (K : P0Const cfg S0 Bm C) (ctx : Ctx) (block : SignedBlock)
+theorem processBlock_slashExit_eq (cfg : Config) (S0 : State) (p Bm C k : Nat) (K : P0Const cfg S0 Bm C) (hF : S0.fork = .phase0) (ctx : Ctx) (block : SignedBlock)
     (hb : SlashExitBlock cfg block) (hi : P0Inv cfg S0 p Bm C (BlockM.blockNeed block k) ctx S0)
     (htyped : Block.check_types cfg block = .ok ()) :
     Sim (Block.process_block cfg S0 block) (processBlock cfg ctx S0 block) ∧
     ∀ st', processBlock cfg ctx S0 block = .ok st' → ∃ ctx', P0Inv cfg S0 p Bm C k ctx' st' :=
-  BlockM.processBlock_slashExit cfg S0 p Bm C k K ctx block hb hi htyped
+  BlockM.processBlock_slashExit cfg S0 p Bm C k K hF ctx block hb hi htyped
 
 /-- … and for phase0 blocks whose only operations are attestations, any number of them (`OnlyAttestations`): window,
 committee index, committee and bit list, source checkpoint, pending-list limit, indexed form and signature, and the
@@ -643,12 +644,12 @@ attestations and voluntary exits in any numbers and any mix): `M_block_refines_S
 committees = the specification's for the attestable epochs, kept by every operation (exits and slashings keep the
 committees because the exit epoch they assign lies after the current epoch; the slashing loop by transitivity). The
 state after an accepted block satisfies the invariant with the budget that is left. -/
-theorem processBlock_phase0NoDeposits_eq (cfg : Config) (S0 : State) (p Bm C k : Nat) (K : P0Const cfg S0 Bm C) (KA : P0AConst cfg)
+theorem processBlock_phase0NoDeposits_eq (cfg : Config) (S0 : State) (p Bm C k : Nat) (K : P0Const cfg S0 Bm C) (KA : P0AConst cfg) (hF : S0.fork = .phase0)
     (ctx : Ctx) (block : SignedBlock) (hb : Phase0NoDeposits cfg block)
     (hi : P0AInv cfg S0 p Bm C (BlockM.blockNeed block k) ctx S0) (htyped : Block.check_types cfg block = .ok ()) :
     Sim (Block.process_block cfg S0 block) (processBlock cfg ctx S0 block) ∧
     ∀ st', processBlock cfg ctx S0 block = .ok st' → ∃ ctx', P0AInv cfg S0 p Bm C k ctx' st' :=
-  BlockM.processBlock_phase0NoDeposits cfg S0 p Bm C k K KA ctx block hb hi htyped
+  BlockM.processBlock_phase0NoDeposits cfg S0 p Bm C k K KA hF ctx block hb hi htyped
 
 /-- `processBlock_phase0_eq` — for EVERY phase0 block (`Phase0Block`: the container of the fork, every list element
 inside its type limits, deposit amounts within one unit `MAX_VALIDATORS_PER_COMMITTEE · 2·Bm` of the balance budget):
@@ -661,22 +662,22 @@ slashings vector, the balances and the deposit index. `P0Const`/`P0AConst`/`P0DC
 quotients, `uint64` room for the epochs, the two seed-lookahead conditions, `MAX_EFFECTIVE_BALANCE ≤ Bm`,
 `VALIDATOR_REGISTRY_LIMIT` below the `ZigZagJoin` marker). -/
 theorem processBlock_phase0_eq (cfg : Config) (S0 : State) (p Bm C k : Nat) (K : P0Const cfg S0 Bm C) (KA : P0AConst cfg) (KD : P0DConst cfg Bm)
-    (ctx : Ctx) (block : SignedBlock) (hb : Phase0Block cfg Bm block)
+    (hF : S0.fork = .phase0) (ctx : Ctx) (block : SignedBlock) (hb : Phase0Block cfg Bm block)
     (hi : P0DInv cfg S0 p Bm C (BlockM.blockNeed block k) ctx S0) (htyped : Block.check_types cfg block = .ok ()) :
     Sim (Block.process_block cfg S0 block) (processBlock cfg ctx S0 block) ∧
     ∀ st', processBlock cfg ctx S0 block = .ok st' → ∃ ctx', P0DInv cfg S0 p Bm C k ctx' st' :=
-  BlockM.processBlock_phase0 cfg S0 p Bm C k K KA KD ctx block hb hi htyped
+  BlockM.processBlock_phase0 cfg S0 p Bm C k K KA KD hF ctx block hb hi htyped
 
 /-- `M_block_refines_S_phase0` — C01 for phase0 WITHOUT the premise `OpSteps`: every phase0 block the specification
 accepts is accepted by `ProcessBlock` / `PostSlotTransition` with the same post-state. -/
 theorem M_block_refines_S_phase0 (cfg : Config) (S0 : State) (p Bm C k : Nat) (K : P0Const cfg S0 Bm C) (KA : P0AConst cfg)
-    (KD : P0DConst cfg Bm) (ctx : Ctx) (block : SignedBlock) (hb : Phase0Block cfg Bm block)
+    (KD : P0DConst cfg Bm) (hF : S0.fork = .phase0) (ctx : Ctx) (block : SignedBlock) (hb : Phase0Block cfg Bm block)
     (hi : P0DInv cfg S0 p Bm C (BlockM.blockNeed block k) ctx S0) (htyped : Block.check_types cfg block = .ok ())
     (r : Bytes) (hroot : block.o_post_root = some r) :
     (∀ post, Block.process_block cfg S0 block = .ok post → processBlock cfg ctx S0 block = .ok post) ∧
     (∀ post, Block.state_transition_post_slots cfg S0 block = .ok post → postSlotTransition cfg ctx S0 block = .ok post) :=
-  ⟨(BlockM.processBlock_phase0 cfg S0 p Bm C k K KA KD ctx block hb hi htyped).1.1.1,
-   (BlockM.postSlot_phase0 cfg S0 p Bm C k K KA KD ctx block hb hi htyped r hroot).1.1⟩
+  ⟨(BlockM.processBlock_phase0 cfg S0 p Bm C k K KA KD hF ctx block hb hi htyped).1.1.1,
+   (BlockM.postSlot_phase0 cfg S0 p Bm C k K KA KD hF ctx block hb hi htyped r hroot).1.1⟩
 
 /-- non-vacuity of the configuration facts: a small configuration satisfies `P0AConst` and `P0DConst` -/
 def exampleCfgA : Config :=
@@ -685,5 +686,40 @@ def exampleCfgD : Config :=
   { (default : Config) with EFFECTIVE_BALANCE_INCREMENT := 1000000000, MAX_EFFECTIVE_BALANCE := 32000000000, VALIDATOR_REGISTRY_LIMIT := 1099511627776 }
 example : P0AConst exampleCfgA := ⟨by decide, by decide, by decide⟩
 example : P0DConst exampleCfgD 32000000000 := ⟨by decide, by decide, by decide⟩
+
+/-- `processBlock_altair_eq` — for EVERY altair block (`AltairBlock`: the container of the fork, every list element inside
+its type limits, deposit amounts within one balance unit, the sync aggregate's bit vector of the configured size):
+`altair.ProcessBlock` simulates `process_block`, with NO premise about the operations, and the state after an accepted
+block satisfies the invariant again with the budget that is left.
+`AltInv … k ctx st` = `P0DInv` (see `processBlock_phase0_eq`; it does not fix the fork) and `AltExtra`: block-root vector
+of the configured length, both participation lists as long as the registry with bytes below 256, the total active
+balance `T`, the context's stake / square root / effective balances / sync-committee indices = the specification's
+(C08, C16). `AltConst`: `MIN_ATTESTATION_INCLUSION_DELAY ≥ 1`, two epochs of block roots, `isqrt T ≠ 0`, and one balance
+unit `MAX_VALIDATORS_PER_COMMITTEE · 2·Bm` covers `54 ·` the base reward of `Bm` and the rewards of a whole sync
+committee. -/
+theorem processBlock_altair_eq (cfg : Config) (S0 : State) (p Bm C T k : Nat) (committee : SyncCommittee) (K : P0Const cfg S0 Bm C)
+    (KA : P0AConst cfg) (KD : P0DConst cfg Bm) (KL : AltConst cfg S0 Bm T) (hF : S0.fork = .altair) (ctx : Ctx) (block : SignedBlock)
+    (hb : AltairBlock cfg Bm block) (hi : AltInv cfg S0 p Bm C T committee (BlockM.blockNeed block k) ctx S0)
+    (htyped : Block.check_types cfg block = .ok ()) :
+    Sim (Block.process_block cfg S0 block) (processBlock cfg ctx S0 block) ∧
+    ∀ st', processBlock cfg ctx S0 block = .ok st' → ∃ ctx', AltInv cfg S0 p Bm C T committee k ctx' st' :=
+  BlockM.processBlock_altair cfg S0 p Bm C T k committee K KA KD KL hF ctx block hb hi htyped
+
+/-- `M_block_refines_S_altair` — C01 for altair WITHOUT the premise `OpSteps`: every altair block the specification
+accepts is accepted by `ProcessBlock` / `PostSlotTransition` with the same post-state. -/
+theorem M_block_refines_S_altair (cfg : Config) (S0 : State) (p Bm C T k : Nat) (committee : SyncCommittee) (K : P0Const cfg S0 Bm C)
+    (KA : P0AConst cfg) (KD : P0DConst cfg Bm) (KL : AltConst cfg S0 Bm T) (hF : S0.fork = .altair) (ctx : Ctx) (block : SignedBlock)
+    (hb : AltairBlock cfg Bm block) (hi : AltInv cfg S0 p Bm C T committee (BlockM.blockNeed block k) ctx S0)
+    (htyped : Block.check_types cfg block = .ok ()) (r : Bytes) (hroot : block.o_post_root = some r) :
+    (∀ post, Block.process_block cfg S0 block = .ok post → processBlock cfg ctx S0 block = .ok post) ∧
+    (∀ post, Block.state_transition_post_slots cfg S0 block = .ok post → postSlotTransition cfg ctx S0 block = .ok post) :=
+  ⟨(BlockM.processBlock_altair cfg S0 p Bm C T k committee K KA KD KL hF ctx block hb hi htyped).1.1.1,
+   (BlockM.postSlot_altair cfg S0 p Bm C T k committee K KA KD KL hF ctx block hb hi htyped r hroot).1.1⟩
+
+/-- non-vacuity of `AltConst`: a small configuration and a total active balance of 64 -/
+def exampleCfgL : Config :=
+  { (default : Config) with SLOTS_PER_EPOCH := 8, MIN_ATTESTATION_INCLUSION_DELAY := 1, SLOTS_PER_HISTORICAL_ROOT := 64, EFFECTIVE_BALANCE_INCREMENT := 1, BASE_REWARD_FACTOR := 1, SYNC_COMMITTEE_SIZE := 4, MAX_VALIDATORS_PER_COMMITTEE := 4 }
+example : AltConst exampleCfgL (default : State) 32 64 :=
+  ⟨by decide, by decide, by decide, by decide +kernel, by decide, by decide +kernel, by decide, by decide +kernel, by decide +kernel, by decide +kernel⟩
 
 end Zrnt.Proofs.C01
